@@ -52,7 +52,7 @@ class C15(SeqProp):
     id = "C15"
     props_file = "Props/C15.v"
     focus = "eom"
-    quick_cases = 360
+    quick_cases = 800
     thorough_cases = 6000
     extra_targets = ["Model/Chan.v", "Model/SeqSnap.v", "Model/Eom.v"]
     assumptions = [
